@@ -24,6 +24,8 @@ import PfVerif.Driver.HedgerSession
 import PfVerif.Driver.GridSys
 import PfVerif.Driver.MultiSession
 import PfVerif.Driver.Autogreek
+import PfVerif.Driver.Hooks
+import PfVerif.Driver.CritTensor
 namespace PfVerif.Driver
 open Lean
 
@@ -74,6 +76,8 @@ def dispatch (op : String) (j : Json) : R Json :=
   | "grid_sys" => opGridSys j
   | "multi_session" => opMultiSession j
   | "autogreek" => opAutogreek j
+  | "hooked_hedge" => opHookedHedge j
+  | "crit_tensor" => opCritTensor j
   | _ => .error s!"unknown op {op}"
 
 end PfVerif.Driver
